@@ -365,6 +365,10 @@ func extractTagTokensFromComment(tok parser.Token) []semanticToken {
 		}
 
 		name := strings.TrimSpace(trimmed[:colonIdx])
+		// a tag name is the word directly before the colon; free text may precede it
+		if i := strings.LastIndexAny(name, " \t"); i >= 0 {
+			name = name[i+1:]
+		}
 		if name == "" || !isValidTagName(name) {
 			continue
 		}
@@ -376,13 +380,14 @@ func extractTagTokensFromComment(tok parser.Token) []semanticToken {
 		}
 		tagStart += searchStart
 
-		// Tag name with colon: "name:"
-		tagNameWithColonLen := uint32(len(name) + 1)
+		// Tag name with colon: "name:" (columns and lengths are UTF-16 code units,
+		// tagStart is a byte offset)
+		tagNameWithColonLen := uint32(lsputil.UTF16Len(name) + 1)
 
 		// +1 to baseCol accounts for the semicolon that starts the comment
 		tokens = append(tokens, semanticToken{
 			line:      baseLine,
-			col:       baseCol + 1 + uint32(tagStart),
+			col:       baseCol + 1 + uint32(lsputil.UTF16Len(commentText[:tagStart])),
 			length:    tagNameWithColonLen,
 			tokenType: TokenTypeTag,
 			modifiers: 0,
@@ -398,8 +403,8 @@ func extractTagTokensFromComment(tok parser.Token) []semanticToken {
 				if valueStart != -1 {
 					tokens = append(tokens, semanticToken{
 						line:      baseLine,
-						col:       baseCol + 1 + uint32(tagNameEnd+valueStart),
-						length:    uint32(len(value)),
+						col:       baseCol + 1 + uint32(lsputil.UTF16Len(commentText[:tagNameEnd+valueStart])),
+						length:    uint32(lsputil.UTF16Len(value)),
 						tokenType: TokenTypeTagValue,
 						modifiers: 0,
 					})
